@@ -54,10 +54,27 @@ let parse_event s =
 
 let show_event e = op_text (int_of_n e.e_op) ^ ":" ^ implode e.e_name
 
+let parse_fsop (w : string list) : fsop option =
+  let e = explode in
+  match w with
+  | [ "create"; p ] -> Some (OCreate (e p))
+  | [ "write"; p ] -> Some (OWrite (e p))
+  | [ "trunc"; p ] -> Some (OTrunc (e p))
+  | [ "chmod"; p ] -> Some (OChmod (e p))
+  | [ "unlink"; p ] -> Some (OUnlink (e p))
+  | [ "mkdir"; p ] -> Some (OMkdir (e p))
+  | [ "rmdir"; p ] -> Some (ORmdir (e p))
+  | [ "mkfifo"; p ] -> Some (OMkfifo (e p))
+  | [ "symlink"; t; p ] -> Some (OSymlink (e t, e p))
+  | [ "link"; s; p ] -> Some (OLink (e s, e p))
+  | [ "rename"; s; d ] -> Some (ORename (e s, e d))
+  | _ -> None
+
 let parse_step (w : string list) : step option =
   let e = explode in
   let a s = if s = "\"\"" then "" else s in
   match w with
+  | "racecl" :: r -> (match parse_fsop r with Some o -> Some (SCloseRace o) | None -> None)
   | [ "fs"; "create"; p ] -> Some (SFs (OCreate (e p)))
   | [ "fs"; "write"; p ] -> Some (SFs (OWrite (e p)))
   | [ "fs"; "trunc"; p ] -> Some (SFs (OTrunc (e p)))
@@ -128,7 +145,7 @@ let () =
     | [] -> () in
   args (List.tl (Array.to_list Sys.argv));
   let ic = open_in !file in
-  let st = ref kq_st_init and sp = ref kq_sp_init in
+  let st = ref kq_st_init and sp = ref kq_sp_init and spm = ref kq_sp_init in
   let hist = ref "" and stepno = ref 0 in
   let histories = ref 0 and steps = ref 0 in
   let mm17 = ref 0 and mm18 = ref 0 and mmfull = ref 0 and mmenv = ref 0 and sp17 = ref 0 and sp18 = ref 0 and bad = ref 0 in
@@ -151,7 +168,7 @@ let () =
          match w with
          | "H" :: id :: _ ->
              close_hist ();
-             hist := id; stepno := 0; st := kq_st_init; sp := kq_sp_init; hist_bad := false; hist_env := false; hist_stuck := false;
+             hist := id; stepno := 0; st := kq_st_init; sp := kq_sp_init; spm := kq_sp_init; hist_bad := false; hist_env := false; hist_stuck := false;
              incr histories
          | "E" :: _ -> ()
          | _ -> (
@@ -175,15 +192,16 @@ let () =
                  if mo.ob_infra <> impl.ob_infra then mism "C17" "infra" (show_infra mo.ob_infra) (show_infra impl.ob_infra);
                  if mo.ob_list <> impl.ob_list then mism "C17" "watchlist" (show_list mo.ob_list) (show_list impl.ob_list);
                  if mo.ob_sizes <> impl.ob_sizes then mism "C17" "sizes" (show_sizes mo.ob_sizes) (show_sizes impl.ob_sizes);
-                 (* C18 projection *)
-                 if show_evs mo.ob_evs <> show_evs impl.ob_evs then mism "C18" "events" (show_evs mo.ob_evs) (show_evs impl.ob_evs);
+                 (* C18 projection; a Close racing with the reader leaves it to the select in sendEvent which events get through *)
+                 let racing = (match x with SCloseRace _ -> true | _ -> false) in
+                 if (not racing) && show_evs mo.ob_evs <> show_evs impl.ob_evs then mism "C18" "events" (show_evs mo.ob_evs) (show_evs impl.ob_evs);
                  (* the rest *)
                  (match x with
-                  | SFs _ -> ()
+                  | SFs _ | SCloseRace _ -> ()
                   | _ ->
                       if mo.ob_ok <> impl.ob_ok then
                         mism "FULL" "result" (if mo.ob_ok then "nil" else "error") (match field obsS "res" with Some r -> r | None -> "?"));
-                 if int_of_nat mo.ob_nerr <> int_of_nat impl.ob_nerr then
+                 if (not racing) && int_of_nat mo.ob_nerr <> int_of_nat impl.ob_nerr then
                    mism "FULL" "errors" (string_of_int (int_of_nat mo.ob_nerr)) (String.concat "," (list_field obsS "er"));
                  if !ok then incr agree_full;
                  (* environment cross-check: filesystem model, registrations, pending count *)
@@ -191,7 +209,7 @@ let () =
                    incr mmenv; hist_env := true;
                    Printf.printf "MISMATCH ENV hist=%s step=%d field=%s model=[%s] impl=[%s] at: %s\n" !hist !stepno fld m i stepS in
                  (match x with
-                  | SFs _ ->
+                  | SFs _ | SCloseRace _ ->
                       if mo.ob_ok <> impl.ob_ok then env "fsres" (string_of_bool mo.ob_ok) (string_of_bool impl.ob_ok);
                       (match field obsS "tree" with
                        | Some t -> if show_tree (kq_tree st') <> t then env "tree" (show_tree (kq_tree st')) t
@@ -211,7 +229,14 @@ let () =
                      let cl = implode cl in
                      let prop = if List.mem cl c17_clauses then (incr sp17; "C17") else (incr sp18; "C18") in
                      Printf.printf "MISMATCH SPEC %s hist=%s step=%d clause=%s detail=[%s] at: %s\n" prop !hist !stepno cl (implode detail) stepS)
-                   viols)
+                   viols;
+                 (* the same predicates on the MODEL's predicted observations: what the faithful model (known defects
+                    included) exhibits itself; a violation of the implementation that is not among these is new *)
+                 let spm', mviols = kq_spec_step !spm x mo in
+                 spm := spm';
+                 List.iter (fun (cl, detail) ->
+                     Printf.printf "MSPEC hist=%s step=%d clause=%s detail=[%s]\n" !hist !stepno (implode cl) (implode detail))
+                   mviols)
        end
      done
    with End_of_file -> ());
